@@ -16,6 +16,7 @@ def rank_spec(r, c, n):
 class C11(Check):
     pid = 'C11'
     validate = True
+    fork_logging = True       # DEBUG logging on/off is a symbolic input of every path
     anchors = [('src/fast_ticc/matrix_compression.py', 'compress_matrix'),
                ('src/fast_ticc/matrix_compression.py', 'reinflate_matrix'),
                ('src/fast_ticc/matrix_compression.py', '_full_matrix_size'),
